@@ -342,11 +342,16 @@ def oracle(ctx, d, t):
                         ctx.fail(f"C20:Image.slice(name!=index,dim={dim},axis={a})", "slice by Cartesian name differs from slice by matrix index", {"shape": shape, "axis": a, "voxel": v})
                     rn_ = call(d.AxisReduction, a, dim)
                     ri_ = call(d.AxisReduction, p, dim)
-                    if isinstance(rn_, Raised) or isinstance(ri_, Raised) or (rn_.index, rn_.axis) != (ri_.index, ri_.axis) or rn_.index != p or rn_.axis != "xyz".find(a):
-                        ctx.fail(f"C20:AxisReduction(name!=index,dim={dim},axis={a})", "AxisReduction resolves the axis differently by name and by matrix index",
-                                 {"dim": dim, "axis": a, "matrix_index": p,
-                                  "by_name": repr(rn_) if isinstance(rn_, Raised) else [rn_.index, rn_.axis],
-                                  "by_index": repr(ri_) if isinstance(ri_, Raised) else [ri_.index, ri_.axis]})
+                    if isinstance(rn_, Raised) or isinstance(ri_, Raised):
+                        ctx.fail(f"C20:AxisReduction(dim={dim},axis={a}):raises", "AxisReduction cannot be built for this axis by name or by matrix index",
+                                 {"dim": dim, "axis": a, "matrix_index": p, "by_name": repr(rn_), "by_index": repr(ri_)})
+                    else:
+                        # the attributes `index` / `axis` are what the generated table `Gen.reduceAxis` records (tie to the model); the
+                        # STATED clause - same data by name and by index, along the axis the coordinate system assigns - is checked on
+                        # `reduce_axis` results below, so a difference here alone is a broken tie, not a failing input
+                        got = (getattr(rn_, "index", None), getattr(rn_, "axis", None), getattr(ri_, "index", None), getattr(ri_, "axis", None))
+                        if got != (p, "xyz".find(a), p, "xyz".find(a)) and not any(m.get("correspondence") == "AxisReduction.index/.axis" for m in ctx.marks):
+                            ctx.mark("TIE-BROKEN", {"correspondence": "AxisReduction.index/.axis", "dim": dim, "axis": a, "matrix_index": p, "observed": repr(got)})
                     for mode in ("sum", "average"):
                         rn = call(d.reduce_axis, img, a, mode=mode)
                         ri = call(d.reduce_axis, img, p, mode=mode)
@@ -355,9 +360,14 @@ def oracle(ctx, d, t):
                         elif not np.array_equal(rn.img, ri.img) or not np.allclose(rn.dimensions, ri.dimensions) or not np.allclose(rn.origin, ri.origin):
                             ctx.fail(f"C20:reduce_axis(name!=index,dim={dim},axis={a})", "reduction by name differs from by index", {"shape": shape, "axis": a})
                         else:
-                            ref = (np.sum if mode == "sum" else np.mean)(img.img, axis=p)
-                            if not np.allclose(rn.img, ref):
-                                ctx.fail(f"C20:reduce_axis(wrong-axis,dim={dim},axis={a})", "reduction along named axis is not along the matrix axis given by interpret_indexing", {"shape": shape, "axis": a})
+                            # which matrix axis was removed is read off the SHAPE (independent of how values are combined - that is
+                            # C11's topic); only decidable when the extent of axis p differs from the others
+                            full = tuple(img.img.shape)
+                            want_shape = full[:p] + full[p + 1:]
+                            others = [full[:q] + full[q + 1:] for q in range(dim) if q != p]
+                            if want_shape not in others and tuple(rn.img.shape) != want_shape:
+                                ctx.fail(f"C20:reduce_axis(wrong-axis,dim={dim},axis={a})", "reduction along the named axis does not remove the matrix axis given by interpret_indexing",
+                                         {"shape": list(full), "axis": a, "matrix_axis": p, "result_shape": list(rn.img.shape)})
 
 
 
@@ -525,7 +535,9 @@ def oracle_vtk(ctx, d, t):
                 r = call(d.plotting.to_vtk, tmp + "/out", data)
             ctx.count(("vtk", dim, shape))
             if isinstance(r, Raised):
-                ctx.fail(f"C20:to_vtk(dim={dim}):raises", f"plotting.to_vtk raises {r} for scalar+vector+tensor data", {"dim": dim, "shape": list(shape)})
+                # the export could not be observed through the stub (another pyevtk entry point, another calling convention, ...):
+                # nothing about axis conventions follows from that - recorded, neither a failing input nor a mark
+                ctx.cov.setdefault("vtk_export_not_observable", []).append({"dim": dim, "shape": list(shape), "raised": repr(r)})
                 continue
             if not stub.rec:
                 continue  # export not reached (should not happen with the stub)
